@@ -23,7 +23,8 @@ RULE = ("Each case = a batch of generated arrival histories (5-60 frames of 1-12
         "(no loss/jump, displacement and prefetch window inside the capacity, followed by in-order traffic) must release every "
         "generated frame exactly once. Enumeration cases run all arrival permutations of 5 (quick) / 6 (thorough) packets "
         "with <= 1 duplicate at capacity 4, prefetch 0/1. Distinct/non-trivial = distinct (capacity, prefetch, mode, feature "
-        "vector) histories that released >= 1 frame.")
+        "vector) histories that released >= 1 frame."
+        " Streams may contain padding-only packets (padding bit, no payload), which are the only legitimate gaps in a frame's data.")
 ASSUMPTIONS = [
     "'n positions late' is measured against the highest sequence number seen so far (serial arithmetic); after such an arrival the no-reuse / ordering clauses are not evaluated for the rest of that history, exactly as the statement allows",
     "ring contents are read from the private attribute _packets for the PLI and occupancy clauses; if it is missing these sub-checks are counted inconclusive",
